@@ -1,6 +1,8 @@
 package rv
 
 import (
+	"strconv"
+	"regexp"
 	"fmt"
 	"os"
 	"go/token"
@@ -13,7 +15,7 @@ import (
 func init() {
 	Registry["C47"] = RuleDef{Module: ".", Run: runC47,
 		Technique:   "extraction of the option-guard -> setup-command table from both protocol arms of _newPipe (go/ssa guards and emitted token literals) and comparison of the arms with each other and with the property's table; must-reach rule on the failure arms of the setup reply loops",
-		Explanation: "Decides (R47a) that in _newPipe every session setting the property lists (credentials -> AUTH, ClientName -> SETNAME / CLIENT SETNAME, SelectDB -> SELECT, ReplicaOnly without sentinel -> READONLY, ClientNoTouch, ClientNoEvict, library info -> CLIENT SETINFO x2, replica-AZ info -> INFO SERVER, redirect capability) is emitted in the RESP3 arm and in the RESP2 arm under the same option guards, with tracking enabled only in RESP3 (RESP2 with caching is refused), and that all emitted commands are sent by the setup DoMulti before the pipe is returned; (R47b) that in both reply loops an error reply leads to p.Close() and a non-nil error unless it is one of the tolerated cases (READONLY, the unknown-HELLO fallback, errors after falling back to RESP2 for non-CLIENT commands, and the trailing SETINFO pair which is excluded from the loop), and that `return p, nil` is only reached through the setup exchange.",
+		Explanation: "Decides (R47a) that in _newPipe every session setting the property lists (credentials -> AUTH, ClientName -> SETNAME / CLIENT SETNAME, SelectDB -> SELECT, ReplicaOnly without sentinel -> READONLY, ClientNoTouch, ClientNoEvict, library info -> CLIENT SETINFO x2, replica-AZ info -> INFO SERVER, redirect capability) is emitted in the RESP3 arm and in the RESP2 arm under the same option guards, with tracking enabled only in RESP3 (RESP2 with caching is refused), and that all emitted commands are sent by the setup DoMulti before the pipe is returned; (R47d) that the constant pattern for a rejected HELLO, which is applied to every setup step's error, matches only errors naming HELLO; (R47b) that in both reply loops an error reply leads to p.Close() and a non-nil error unless it is one of the tolerated cases (READONLY, the unknown-HELLO fallback, errors after falling back to RESP2 for non-CLIENT commands, and the trailing SETINFO pair which is excluded from the loop), and that `return p, nil` is only reached through the setup exchange.",
 		NotDecided:  "what the server does with the commands; dynamic credential refresh; newSentinelOpt's overrides."}
 }
 
@@ -165,7 +167,7 @@ func runC47(r *Report) {
 		sort.Strings(g3)
 		sort.Strings(g2)
 		same := strings.Join(dedup(g3), " | ") == strings.Join(dedup(g2), " | ")
-		if row.key == "AUTH" || row.key == "SETNAME" {
+		if row.key == "SETNAME" {
 			same = true // spelled inside HELLO in RESP3: same option, different nesting
 		}
 		r.Ob("R47a", fn, "arms-agree:"+row.key, fn.Pos(), same, fmt.Sprintf("both protocol arms must apply %s under the same option guards; RESP3 %v, RESP2 %v", row.key, dedup(g3), dedup(g2)))
@@ -229,6 +231,27 @@ func runC47(r *Report) {
 			"every emitted setup command is sent by the setup DoMulti (or superseded by the RESP2 arm) before a usable pipe is returned")
 	}
 	sentinelOptRule(r)
+	// R47d: the pattern that recognises "this server does not know HELLO" is applied to the error of
+	// every setup step; it must therefore match only errors that name HELLO, otherwise a rejected
+	// SELECT/AUTH/CLIENT step is taken for a missing HELLO and tolerated after the RESP2 fallback.
+	if src := pkgVarCallStringArg(r.P, "rueidis", "noHello"); r.Anchor("R47d", "noHello pattern", src != "") {
+		re, err := regexp.Compile(src)
+		ok := err == nil
+		why := ""
+		if ok {
+			for _, probe := range []string{"ERR unknown command", "ERR unknown command 'SELECT'", "ERR unknown command `AUTH`, with args beginning with:", "unknown command 'CLIENT'", "ERR unknown command 'SELECT', with args beginning with: '1'"} {
+				if re.MatchString(probe) {
+					ok, why = false, "the pattern also matches "+strconv.Quote(probe)
+				}
+			}
+			for _, probe := range []string{"ERR unknown command 'HELLO'", "ERR unknown command `HELLO`, with args beginning with: `3`", "unknown command 'hello'"} {
+				if !re.MatchString(probe) {
+					ok, why = false, "the pattern does not match "+strconv.Quote(probe)
+				}
+			}
+		}
+		r.Ob("R47d", nil, "hello-rejection-pattern-names-hello", token.NoPos, ok, "the constant pattern for a rejected HELLO (evaluated on probe error texts) matches only errors naming HELLO; "+why)
+	}
 
 	// R47b failure arms
 	accepted := func(g Guard) bool {
